@@ -145,3 +145,33 @@ func pcAnd(pc, c *Term) *Term {
 	args = append(args, c)
 	return &Term{Op: "and", Sort: SBool, Args: args}
 }
+
+// slAt reads element idx of a slice whose backing content is `content` and
+// whose first element sits at offset off: content[off+idx]. It is printed as
+// an application of sl_at_<sort>, defined as a macro in ground queries and
+// axiomatised (with a trigger on the application) in quantified ones.
+func (ex *Exec) slAt(content, off, idx *Term) *Term {
+	_, es := arrayParts(content.Sort)
+	name := "sl_at_" + sanitize(es)
+	if ex.slAtSorts == nil {
+		ex.slAtSorts = map[string]string{}
+	}
+	ex.slAtSorts[name] = es
+	return App(name, es, content, off, idx)
+}
+
+// slAtDecls renders the definitions of the sl_at functions.
+func (ex *Exec) slAtDecls(quantified bool) string {
+	s := ""
+	for _, name := range sortedKeys(ex.slAtSorts) {
+		es := ex.slAtSorts[name]
+		as := ArraySort(SInt, es)
+		if quantified {
+			s += "(declare-fun " + name + " (" + as + " Int Int) " + es + ")\n"
+			s += "(assert (forall ((a!ax " + as + ") (o!ax Int) (i!ax Int)) (! (= (" + name + " a!ax o!ax i!ax) (select a!ax (+ o!ax i!ax))) :pattern ((" + name + " a!ax o!ax i!ax)))))\n"
+		} else {
+			s += "(define-fun " + name + " ((a!ax " + as + ") (o!ax Int) (i!ax Int)) " + es + " (select a!ax (+ o!ax i!ax)))\n"
+		}
+	}
+	return s
+}
